@@ -190,6 +190,24 @@ func init() {
 		Marker: "C20 violated on the real code",
 		Data:   func(m map[string]string, goal string) (map[string]interface{}, error) { return map[string]interface{}{}, nil },
 	})
+	// C13: the end-block collection must keep in the reward module what it reports for the LPs (fixed
+	// scenarios with default parameters; the model's amounts are not needed)
+	registerReplay(&Replayer{
+		Obligation: "x/masterchef/keeper.(Keeper).CollectPerpRevenue/ensures:C13/perpetual-revenue-reported-for-lps-is-kept-by-the-reward-module",
+		Template:   "C13_perp_revenue_paid_from_rewards.go.tmpl", PkgDir: "x/masterchef/keeper", TestName: "TestKeeperSuite/TestVerifReplayC13PerpRevenuePaidFromRewards",
+		Marker: "C13 violated on the real code",
+		Data: func(m map[string]string, goal string) (map[string]interface{}, error) {
+			return map[string]interface{}{"Revenue": "3000", "Already": "100000"}, nil
+		},
+	})
+	registerReplay(&Replayer{
+		Obligation: "x/masterchef/keeper.(Keeper).CollectDEXRevenue/invariant:C13/lps-total-so-far-is-kept-by-the-reward-module/kept-by-an-iteration",
+		Template:   "C13_dex_revenue_protocol_share.go.tmpl", PkgDir: "x/masterchef/keeper", TestName: "TestKeeperSuite/TestVerifReplayC13DexRevenueProtocolShare",
+		Marker: "C13 violated on the real code",
+		Data: func(m map[string]string, goal string) (map[string]interface{}, error) {
+			return map[string]interface{}{"Revenue": "10000"}, nil
+		},
+	})
 	// C15: the burner burns any denom with bank metadata found at the zero address
 	registerReplay(&Replayer{
 		Obligation: "x/burner/keeper.(Keeper).burnTokensForDenom/burns:C15/burns-only-the-native-token",
